@@ -347,6 +347,55 @@ Proof.
       assert (nth i (repeat false n) false = false) as E; [|congruence].
       clear. revert i. induction n as [|n IH]; intros [|i]; cbn [repeat nth]; auto.
 Qed.
+
+(* ---- cross-tabulation cells ---- *)
+Lemma lookup_in k (T : list (mkey * V)) v : Margins.lookup k T = Some v -> In (k, v) T.
+Proof.
+  unfold Margins.lookup. destruct (find _ T) as [[k' v']|] eqn:F; [|discriminate].
+  intros H. inversion H; subst. apply find_some in F as [Hin Hk]. cbn [fst] in Hk.
+  apply key_eqb_eq in Hk. now subst.
+Qed.
+
+Lemma lookup_none k (T : list (mkey * V)) : Margins.lookup k T = None -> ~ In k (map fst T).
+Proof.
+  unfold Margins.lookup. destruct (find _ T) as [r|] eqn:F; [discriminate|]. intros _ Hin.
+  apply in_map_iff in Hin as [[k' v] [Hk Hin]]. cbn [fst] in Hk. subst k'.
+  pose proof (find_none _ _ F _ Hin) as Hf. cbn [fst] in Hf. rewrite key_eqb_refl in Hf. discriminate.
+Qed.
+
+(* a cell that holds a value holds the aggregate of the rows with that row key and that column key ('All' = any label),
+   'All' only on an axis whose margin was asked for; a combination no data row has is null *)
+Theorem crosstab_cell_sound n0 n1 rm cm D r c v : concrete (n0 + n1) D -> NoDup (map fst D) ->
+  crosstab_cell agg n0 n1 rm cm D r c = Some v ->
+  v = total (r ++ c) D /\
+  (forall i, i < n0 + n1 -> is_all (r ++ c) i = true -> In i (crosstab_levels n0 n1 rm cm)) /\
+  (exists k0, In k0 (map fst D) /\ matches (r ++ c) k0 = true).
+Proof.
+  intros Hc Hn H. unfold Margins.crosstab_cell in H. apply lookup_in in H.
+  exact (add_row_margin_sound _ _ _ Hc Hn _ _ H).
+Qed.
+
+Theorem crosstab_absent_is_null n0 n1 rm cm D r c : concrete (n0 + n1) D -> NoDup (map fst D) ->
+  (forall k0, In k0 (map fst D) -> matches (r ++ c) k0 = false) ->
+  crosstab_cell agg n0 n1 rm cm D r c = None.
+Proof.
+  intros Hc Hn Hno. destruct (crosstab_cell agg n0 n1 rm cm D r c) as [v|] eqn:E; [|reflexivity]. exfalso.
+  destruct (crosstab_cell_sound _ _ _ _ _ _ _ _ Hc Hn E) as [_ [_ [k0 [H0 Hm]]]].
+  rewrite (Hno k0 H0) in Hm. discriminate.
+Qed.
+
+(* and a combination that occurs is there: the ordinary cell of every data row *)
+Theorem crosstab_ordinary_cell n0 n1 rm cm D r c v : concrete (n0 + n1) D -> NoDup (map fst D) ->
+  In (r ++ c, v) D -> crosstab_cell agg n0 n1 rm cm D r c = Some v.
+Proof.
+  intros Hc Hn Hin. unfold Margins.crosstab_cell.
+  pose proof (add_row_margin_keeps_rows (n0 + n1) (crosstab_levels n0 n1 rm cm) D Hc _ _ Hin) as Hk.
+  destruct (Margins.lookup (r ++ c) (add_row_margin (n0 + n1) (crosstab_levels n0 n1 rm cm) D)) as [v'|] eqn:E.
+  - apply lookup_in in E.
+    destruct (add_row_margin_sound _ _ _ Hc Hn _ _ E) as [Hv' _].
+    destruct (add_row_margin_sound _ _ _ Hc Hn _ _ Hk) as [Hv _]. congruence.
+  - apply lookup_none in E. exfalso. apply E. apply in_map_iff. exists (r ++ c, v). auto.
+Qed.
 End Proofs.
 
 (* non-vacuity: two levels, sparse combinations, margins for level 1 only, integer addition *)
